@@ -44,6 +44,15 @@ def run_files(case):
             if abs(got - 10 * want_rate) > 1e-9:
                 return ("scenario manager %r (base constants %s, scenario constants %s, %s): level(10) = %r, with the rate the settings determine (%r) it is %r"
                         % (mgr, {"rate": case["base_rate"]}, {"rate": case["scen_rate"]}, "one file" if case["same_file"] else "base values and scenario in different files", got, want_rate, 10 * want_rate))
+        # an in-memory override (session settings), then the scenarios are read again from the unchanged files: the file values are back
+        b.begin_session(scenarios=["run"], scenario_managers=["alpha"], equations=["level"], settings={"alpha": {"run": {"constants": {"rate": 50.0}}}})
+        b.run_step(); b.end_session()
+        b.reset_all_scenarios()
+        df = b.run_scenarios(scenario_managers=["alpha"], scenarios=["run"], equations=["level"], return_format="df")
+        got = float(df.iloc[-1, 0])
+        if abs(got - 10 * want_rate) > 1e-9:
+            return ("after an in-memory override (rate=50 through session settings) and reset_all_scenarios, scenario alpha/run read again from the unchanged "
+                    "files gives level(10) = %r, the files determine %r" % (got, 10 * want_rate))
         return None
     finally:
         os.chdir(cwd)
